@@ -149,7 +149,9 @@ func c09Header() *BlockHeader {
 		}
 		h.ProveValue = new(big.Int).SetBytes(symx.Bytes("pvlong", n))
 	}
-	switch symx.Choice("rid", 3) {
+	switch symx.Choice("rid", 4) {
+	case 3: // empty but not nil (the shape of a genesis header): json renders {} rather than null
+		h.RequestIds = map[string]uint64{}
 	case 1:
 		h.RequestIds = map[string]uint64{"a": symx.U64("rid_a")}
 	case 2:
